@@ -141,6 +141,16 @@ def fam_control():
         out.append(("ctl:nested-outer:" + en,
                     "stel t = 0; stel i = 0; zolang i < %s { i += 1; als i == %s { %s; }; stel j = 0; zolang j < 2 { j += 1; t = t + 1; }; t = t + 100; }; [i, t]"
                     % (H0, H1, en)))
+    # (5b) an else-less `als` whose block ends in an exit, as the LAST statement of a function body / loop body / program
+    out += [
+        ("ctl:fn-last-is-ifnoelse-antwoord", "stel t = 0; functie f(n) { t = t + 1; als n < %s { antwoord 100; } }; stel r = [f(%s), f(0)]; [r, t]" % (H0, H1)),
+        ("ctl:fn-last-is-ifnoelse-antwoord-nested", "stel t = 0; functie f(n) { als n > 0 { t = t + 1; als n < %s { antwoord 1; } } }; stel r = [f(%s), f(0)]; [r, t]" % (H0, H1)),
+        ("ctl:fn-last-is-ifnoelse-antwoord-in-loop", "functie zoek(l, x) { stel i = 0; zolang i < lengte(l) { als l[i] == x { antwoord i; }; i += 1; } }; stel p = [zoek([4, 9, 2], %s), zoek([], 1)]; p" % H0),
+        ("ctl:fn-only-ifnoelse-antwoord", "functie f(n) { als n == %s { antwoord n * 2; } }; stel a = f(%s); stel b = f(%s); [a, b, 7]" % (H0, H0, H1)),
+        ("ctl:loop-last-is-ifnoelse-stop", "stel t = 0; stel i = 0; zolang i < 5 { i += 1; t = t + 1; als i == %s { stop; } }; [i, t]" % H0),
+        ("ctl:loop-last-is-ifnoelse-volgende", "stel t = 0; stel i = 0; zolang i < 4 { i += 1; als i == %s { volgende; } }; [i, t]" % H0),
+        ("ctl:program-last-is-ifnoelse", "stel t = %s; als t < %s { t = t + 1; }" % (H0, H1)),
+    ]
     # (6) while / if used as values and as arguments
     out += [
         ("ctl:if-as-arg", "functie f(a, b) { a - b }; f(als %s < %s { 1 } anders { 2 }, als %s < %s { 10 })" % (H0, H1, H1, H2)),
@@ -171,6 +181,9 @@ def fam_calls():
         ("call:wrapped-named-fn", "functie prijs(n) { n * 10 }; stel oud = prijs; prijs = functie(n) { oud(n) + 1 }; [prijs(%s), oud(%s)]" % (H0, H0)),
         ("call:reassigned-other-arity", "functie f(a) { a }; f = functie(a, b) { a - b }; f(%s, %s)" % (H0, H1)),
         ("call:reassigned-in-fn", "functie f() { 1 }; functie zet() { f = functie() { 2 }; 0 }; stel a = f(); zet(); [a, f()]"),
+        ("call:empty-body-with-params", 'functie log(bericht, niveau) { }; stel t = 0; log("start", t); log(1, 2); t = t + 3; [t, log(%s, 0)]' % H0),
+        ("call:params-only-no-locals", "functie kies(a, b, c) { b }; functie niets(a) { {} }; [kies(1, %s, 3), niets(%s), kies(niets(0), 2, 3)]" % (H0, H1)),
+        ("call:locals-only-in-inner-block", "functie f(a) { { stel x = a + 1; { stel y = x * 2; a = y; }; }; a }; f(%s)" % H0),
         ("call:args-order", 'functie f(a, b, c) { a * 100 + b * 10 + c }; stel t = 0; functie n() { t = t + 1; t }; f(n(), n(), n())'),
         ("call:positional", "functie f(a, b, c, d) { [d, c, b, a] }; f(%s, %s, %s, 4)" % (H0, H1, H2)),
         ("call:locals-padded", "functie f(a) { stel b = a + 1; stel c = b + 1; stel d = c + 1; [a, b, c, d] }; f(%s)" % H0),
@@ -374,6 +387,10 @@ def fam_boundary():
         ("bnd:div-zero-local", "functie f(n) { n / 0 }; f(%s)" % H0),
         ("bnd:rem-zero-local", "functie f(n) { 5 %% n }; f(%s - %s)" % (H0, H1)),
         ("bnd:float-div-zero", "[1.0 / 0.0, 0.0 / 0.0, 1.0 % 0.0]"),
+        ("bnd:signed-zero-literals", "stel p = 0.0; stel m = -0.0; [1.0 / m, 1.0 / p, 1.0 / -0.0, 1.0 / 0.0, p == m, 1.0 / (0.0 * -1.0)]"),
+        ("bnd:signed-zero-literals-rev", "stel m = -0.0; stel p = 0.0; functie inv(x) { 1.0 / x }; [inv(m), inv(p), inv(-0.0), inv(0.0)]"),
+        ("bnd:negative-literals-pooled", "stel a = -1.5; stel b = 1.5; stel c = -7; stel d = 7; functie f(x) { [x - 1.5, x + -1.5, -7 + x * 0.0] }; [a + b, c + d, -1.5 == a, f(1.5), -(-7)]"),
+        ("bnd:close-float-literals", "stel a = 0.3; stel b = 0.30000000000000004; stel c = 0.1 + 0.2; [a == b, b == c, a == c, b - a > 0.0, string(b)]"),
         ("bnd:nan-ordering", "stel n = 0.0 / 0.0; [n < 1.0, n <= 1.0, n > 1.0, n >= 1.0, 1.0 < n, 1.0 >= n, n == n, n != n, n < n]"),
         ("bnd:inf-ordering", "stel i = 1.0 / 0.0; stel m = 0.0 - i; [i > 1.0, m < i, i == i, i - i < 1.0, i + m >= 0.0, m <= m, 0.0 * i > 1.0]"),
         ("bnd:nan-negated-comparisons", "stel n = 0.0 / 0.0; [!(n < 1.0), !(n <= 1.0), !(n > 1.0), !(n >= 1.0), !(1.0 < n), !(n == n), !(n != n), !(2.0 < 1.0), !(1.0 < 2.0)]"),
@@ -703,6 +720,17 @@ def fam_pairs():
                 out.append(("pair:typed-neutral:param:" + nm, base, "functie f(x) { %s }; f(%s)" % (e_x, arg)))
                 out.append(("pair:typed-neutral:block-local:" + nm, base, "functie f(p) { stel pad = 0; { stel x = p; %s } }; f(%s)" % (e_x, arg)))
                 out.append(("pair:typed-neutral:global:" + nm, base, "stel x = %s; %s" % (arg, e_x)))
+    # a condition written in place vs computed into a variable first (both operands of && / || must be treated alike in
+    # both places: side effects, errors, non-boolean operands)
+    pre = 'stel t = 0; functie g(v) { t = t + 1; print("g"); v }; '
+    conds = [("and-call", "%s < %s && g(ja)" % (H0, H1)), ("or-call", "%s < %s || g(nee)" % (H0, H1)), ("and-nonbool", "%s < %s && 1" % (H0, H1)),
+             ("or-nonbool", "%s < %s || 0" % (H0, H1)), ("and-error", "%s < %s && [1][5] == 1" % (H0, H1)), ("call-and", "g(%s < %s) && g(ja)" % (H0, H1)),
+             ("and-and", "%s < %s && g(ja) && g(%s < %s)" % (H0, H1, H1, H0)), ("not-and", "!(%s < %s && g(ja))" % (H0, H1))]
+    for cn, c in conds:
+        out.append(("pair:cond-inline-vs-var:als:" + cn, pre + "als %s { t = t + 10; } anders { t = t + 20; }; t" % c, pre + "stel c = %s; als c { t = t + 10; } anders { t = t + 20; }; t" % c))
+        out.append(("pair:cond-inline-vs-var:zolang:" + cn, pre + "stel n = 0; zolang %s { n += 1; als n > 1 { stop; } }; [t, n]" % c,
+                    pre + "stel n = 0; stel c = %s; zolang c { n += 1; als n > 1 { stop; }; c = %s; }; [t, n]" % (c, c)))
+        out.append(("pair:cond-inline-vs-var:chain:" + cn, pre + "als %s < 0 { 1 } anders als %s { 2 } anders { 3 }" % (H0, c), pre + "stel c = %s; als %s < 0 { 1 } anders als c { 2 } anders { 3 }" % (c, H0)))
     # literal operand vs variable holding it, inside richer expressions
     exprs = ["x * 2 + %s" % H1, "(%s - x) %% 7" % H1, "[x, %s, x + %s]" % (H1, H1), "als x < %s { x } anders { %s }" % (H1, H1),
              "x / %s + x %% %s" % (H1, H1)]
